@@ -16,6 +16,7 @@ func init() {
 			"AF: the storage is asked for [Start+lookback, End] (instant) / [Start, End] (range), read off the evaluated paths with loads resolved through preceding stores; LP-OFFLOAD provenance of offloaded matchers",
 			"AF build range bounds (the window a metric query asks the daemon for); FE-CLASS KeyToLabel (a container is selectable under the sanitised name of each label)",
 			"the CLI range rules of C16 (the resolved window is what the containers are asked for)",
+			"PV-ORDER SetFromRecord: attribute maps (the container's labels) are applied after the line's well-known fields on every path",
 		},
 		NotDecided: []string{"the Docker daemon's own since/until semantics", "regexp engine semantics", "that strconv/time functions meet their contracts"},
 		Rules: func(r *Run) {
@@ -31,6 +32,7 @@ func init() {
 			ruleRangeBuild(r) // the window a metric query asks the daemon for: [start-offset-range, end-offset]
 			ruleKeyToLabel(r) // a container is selectable under the sanitised name of each of its labels
 			ruleTimeParams(r) // the window the CLI resolves is the window the containers are asked for
+			ruleSetFromRecordOrder(r)
 		},
 	})
 }
